@@ -22,11 +22,10 @@ Open Scope N_scope.
 
 (* --- the property -------------------------------------------------------------------------- *)
 
-(* every output combination c (lalserver never sets RtspRemuxerAddSpsPps2KeyFrameFlag), every
+(* every output combination c (either value of RtspRemuxerAddSpsPps2KeyFrameFlag), every
    history of publishes (any type, payload bytes, length, 32-bit timestamp) and consumer joins:
    no step panics and no loop of the model runs out of fuel *)
 Theorem c05_no_panic : forall (c : grp_cfg) (history : list gev),
-  gc_add c = false ->
   (forall m, In (GPub m) history -> well_framed m) ->
   snd (m_grun fixes_all c history) = None.
 Proof. exact no_panic_main. Qed.
@@ -40,7 +39,6 @@ Print Assumptions c05_no_panic.
    Amortised over the history it is linear in what was published, whatever the timestamps:
    J = number of rtmp / http-flv joins, 4293 = 477 silent frames of 9 = 10 s of silence per message at most *)
 Theorem c05_bounded_work : forall (c : grp_cfg) (history : list gev),
-  gc_add c = false ->
   (forall m, In (GPub m) history -> well_framed m) ->
   exists total, m_gtotal fixes_all c history = Some total /\
                 total <= (11 + joins_count history) * pubs_cost history
@@ -71,7 +69,7 @@ Definition amsg (ts : N) (p : bytes) : gev := GPub (mk_mmsg t_audio ts p).
 (* all fixes but one *)
 Definition fx_but (k : N) : fixes :=
   mk_fixes (negb (k =? 1)) (negb (k =? 2)) (negb (k =? 3)) (negb (k =? 4)) (negb (k =? 5)) (negb (k =? 6))
-           (negb (k =? 7)) (negb (k =? 8)) (negb (k =? 9)) (negb (k =? 10)) (negb (k =? 11)) (negb (k =? 12)).
+           (negb (k =? 7)) (negb (k =? 8)) (negb (k =? 9)) (negb (k =? 10)) (negb (k =? 11)) (negb (k =? 12)) (negb (k =? 13)).
 
 (* F-21: one-byte payloads and short enhanced-rtmp headers; every fix is needed *)
 Theorem c05_pinned_refuted :
@@ -144,12 +142,32 @@ Theorem c05_pinned_refuted_rtsp_boundary :
 Proof. cbv zeta. split; vm_compute; reflexivity. Qed.
 Print Assumptions c05_pinned_refuted_rtsp_boundary.
 
-(* RtspRemuxerAddSpsPps2KeyFrameFlag = true (never set by lalserver): a 6-byte key frame is sliced at [9:] *)
-Theorem c05_add_flag_refuted :
-  snd (m_grun fixes_all (mk_gcfg true true true true true true None true true)
-         [vmsg 0 avc_sh_sample; amsg 0 [175; 0; 18; 16]; vmsg 40 [23; 1; 0; 0; 0; 0]]) = Some s_rtsp_remux9.
-Proof. vm_compute; reflexivity. Qed.
-Print Assumptions c05_add_flag_refuted.
+(* metadata: the broadcast path reads two onMetaData fields (audiocodecid, audiosamplerate: Rtmp2RtspRemuxer) by a Go type
+   assertion on the AMF value, a sum type (number | boolean | string | pair list; null / undefined / absent = nil).
+   With the comma-ok form lal uses, no value type panics, and the metadata branch returns for EVERY payload; the
+   unchecked form `v.(float64)` panics for every summand but the number (string "44100": the witness) *)
+Theorem c05_metadata_any_value_type :
+  (forall v, exists r, assert_f64 true v = Ok r) /\
+  (forall acfg s payload, exists s', rtsp_meta acfg s payload = Ok s') /\
+  rtsp_meta_gen false RtmpAmf0.cfg_fixed rtsp_init
+    ([2; 0; 10; 111; 110; 77; 101; 116; 97; 68; 97; 116; 97; 3; 0; 15] ++ k_audiosamplerate ++ [2; 0; 5; 52; 52; 49; 48; 48; 0; 0; 9])
+  = Panic s_meta_assert.
+Proof.
+  split; [exact assert_f64_ok|]. split.
+  - intros acfg s payload. destruct (rtsp_meta_ok acfg s payload) as [s' [H _]]. exists s'. exact H.
+  - vm_compute. reflexivity.
+Qed.
+Print Assumptions c05_metadata_any_value_type.
+
+(* F-46, before its repair: with remux.RtspRemuxerAddSpsPps2KeyFrameFlag = true a 6-byte key frame was sliced at
+   Payload[9:]; after it (first nalu = payload[4:], guarded) the same history is processed.  c05_no_panic and
+   c05_bounded_work above hold for BOTH values of the flag (gc_add is an unconstrained field of the configuration) *)
+Theorem c05_add_flag_pinned_refuted :
+  let c := mk_gcfg true true true true true true None true true in
+  let h := [vmsg 0 avc_sh_sample; amsg 0 [175; 0; 18; 16]; vmsg 40 [23; 1; 0; 0; 0; 0]] in
+  snd (m_grun (fx_but 13) c h) = Some s_rtsp_remux9 /\ m_grun fixes_all c h = (3, None).
+Proof. cbv zeta. split; vm_compute; reflexivity. Qed.
+Print Assumptions c05_add_flag_pinned_refuted.
 
 (* --- non-vacuity ------------------------------------------------------------------------------------ *)
 (* a real stream start (avc sequence header with a parsable SPS, aac sequence header, key frame, audio,
